@@ -168,11 +168,13 @@ func init() {
 		},
 		Units: func(t fw.Tier) int { return len(planSpans(c07Sizes(t), c07Chunk)) + c07SchedUnits(t) },
 		RunUnit: func(c *fw.Ctx, unit int) {
-			spans := planSpans(c07Sizes(c.Tier), c07Chunk)
-			if unit >= len(spans) {
-				c07SchedUnit(c, unit-len(spans))
+			// the schedule-exhaustive units come first: their findings are deterministic and replayable
+			if unit < c07SchedUnits(c.Tier) {
+				c07SchedUnit(c, unit)
 				return
 			}
+			unit -= c07SchedUnits(c.Tier)
+			spans := planSpans(c07Sizes(c.Tier), c07Chunk)
 			fams := c07Families(c.Tier)
 			sp := spans[unit]
 			if sp.fam == len(fams) {
